@@ -622,14 +622,17 @@ func monitorC09(c fw.Case, outs []string) []string {
 // stored values of the transactions whose apply did not fail.
 func monitorC04(c fw.Case, outs []string) []string {
 	var fails []string
+	live := liveRelations(c)
 	for _, s := range drained(c, outs) {
 		if s.Head == "not-quiescent" {
 			continue
 		}
 		for t, cfg := range s.Cfg {
-			if cfg.State != "SYNCHRONIZED" || cfg.Master == 0 {
+			if cfg.State != "SYNCHRONIZED" || cfg.Master == 0 || !live[cfg.Master] {
 				continue
 			}
+			// the master must be a relation whose connection is up (a connection that is down while the
+			// relation stays listed keeps its master: nothing can be sent, nothing has to have converged)
 			want := map[string]string{}
 			for path, pv := range cfg.View {
 				if pv.Deleted {
@@ -866,4 +869,66 @@ func monitorInter(c fw.Case, outs []string) []string {
 		}
 	}
 	return fails
+}
+
+// liveRelations: the relations that are listed and whose connection is up at the end of the script
+// (faults inside a pre-emption included).
+func liveRelations(c fw.Case) map[int]bool {
+	rel := map[string]int{}
+	down := map[string]bool{}
+	apply := func(f []string) {
+		if len(f) < 2 {
+			return
+		}
+		switch f[0] {
+		case "relup":
+			if len(f) >= 3 {
+				rel[f[1]] = atoi(f[2])
+				delete(down, f[1])
+			}
+		case "reldown":
+			delete(rel, f[1])
+		case "conndown":
+			down[f[1]] = true
+		case "connup":
+			delete(down, f[1])
+		case "devrestart":
+			for id, t := range rel {
+				if t == atoi(f[1]) {
+					delete(rel, id)
+				}
+			}
+		}
+	}
+	for _, ln := range c.Script {
+		f := strings.Fields(ln)
+		if len(f) == 0 {
+			continue
+		}
+		if f[0] == "v2.reset" {
+			rel, down = map[string]int{}, map[string]bool{}
+		}
+		if f[0] == "v2.fault" {
+			apply(f[1:])
+		}
+		if f[0] == "v2.run" {
+			for _, a := range f[2:] {
+				if v, ok := strings.CutPrefix(a, "inter="); ok {
+					_, items, _ := strings.Cut(v, ":")
+					for _, it := range strings.Split(items, "+") {
+						if x, ok := strings.CutPrefix(it, "F."); ok {
+							apply(strings.Split(x, "."))
+						}
+					}
+				}
+			}
+		}
+	}
+	out := map[int]bool{}
+	for id := range rel {
+		if !down[id] {
+			out[atoi(id)] = true
+		}
+	}
+	return out
 }
